@@ -359,15 +359,23 @@ func ShouldRespond(w Watcher, id string, request *discovery.DiscoveryRequest) (b
 		errCode := codes.Code(request.ErrorDetail.Code)
 		log.Warnf("ADS:%s: ACK ERROR %s %s:%s", stype, id, errCode.String(), request.ErrorDetail.GetMessage())
 		IncrementXDSRejects(request.TypeUrl, w.GetID(), errCode.String())
+		watched := false
 		w.UpdateWatchedResource(request.TypeUrl, func(wr *WatchedResource) *WatchedResource {
 			if wr == nil {
 				// NACK for a type that is not watched on this stream; there is nothing to record.
 				return nil
 			}
+			watched = true
 			wr.LastError = request.ErrorDetail.GetMessage()
 			return wr
 		})
-		return false, emptyResourceDelta
+		if watched {
+			return false, emptyResourceDelta
+		}
+		// The rejected response was sent on a previous stream: Envoy keeps a NACK it could not send (together
+		// with its nonce) and sends it first when it reconnects. On this stream it is the first request for the
+		// type; Envoy still subscribes to it and, for a wildcard type, will not ask again. Handle it as a
+		// reconnect below, otherwise the type is neither answered nor ever pushed on this stream.
 	}
 
 	if shouldUnsubscribe(request) {
